@@ -301,6 +301,30 @@ Theorem model_passes_C08_clause_7_history :
 Proof. exact model_passes_C08_clause_7_history_lemma. Qed.
 Print Assumptions model_passes_C08_clause_7_history.
 
+(** clause 1 (a request changes status only active -> answered by a successful response of its
+    provider not after its expiry height, or active -> expired/removed in the end-block of its
+    expiry height; inactive requests are only ever removed, in an end-block; a new request is
+    active, unanswered, created at the current height with a later expiry, under an id never seen
+    before; after an end-block no active request is at or past its expiry height).
+    Along the model's OWN trace of any history — [pre] the steps already executed, [st] the next
+    one, [model_seen] the checker's accumulator of request ids (as [check_from] computes it) —
+    [holds_C08] never answers 1.  HYPOTHESES: no service is served by a module ([c_msvc c < 0]: then
+    requests are created by the end blocker only, and a new id is fresh because it carries the
+    current height; with a module-served service the freshness argument needs batch numbers and is
+    not done here); distinct hashes; and no end-block step with a negative time increment
+    ([good_step]) — the model rejects such a step, the driver never generates one, and the checker's
+    "nothing active at its expiry height after an end-block" entry does not look at the result
+    code, so on such a step the checker WOULD report clause 1 on the model's own observation. *)
+Theorem model_passes_C08_clause_1 :
+  forall c steps h0 t0 l0 univ,
+    c_msvc c < 0 -> NoDup (create_txhs steps) -> Forall good_step steps ->
+    forall pre st post, steps = pre ++ st :: post ->
+    forall fired tr sc pcode pnc pcb,
+      let s := run c (init h0 t0 l0) pre in
+      holds_C08 (model_seen univ c (init h0 t0 l0) [] pre) fired tr sc (obs_of univ pcode pnc pcb s) st (obs_step univ c s st) <> 1.
+Proof. exact model_passes_C08_clause_1_lemma. Qed.
+Print Assumptions model_passes_C08_clause_1.
+
 (** ** non-vacuity: a history in which one request is answered and its sibling expires; a
     late answer to the expired one and a duplicate answer to the answered one are rejected;
     the one-shot context is removed; a repeated context (frequency 3, total 2) starts its
